@@ -1,13 +1,23 @@
 #!/usr/bin/env python3
 """Prints the prompt given to a fresh sub-agent that seeds a property-breaking change (nothing from /verif is disclosed)."""
-import json, sys
+import json, sys, os
 pid = sys.argv[1]
 n = sys.argv[2] if len(sys.argv) > 2 else "1"
 for line in open('/verif/properties.jsonl'):
     p = json.loads(line)
     if p['id'] == pid:
         break
-wt = "/tmp/seed/%s" % pid
+wt = "/tmp/seed/%s%s" % (pid, "" if os.environ.get("SEED_ROUND", "1") == "1" else "r" + os.environ["SEED_ROUND"])
+import os
+prev = ""
+import glob, os
+metas = sorted(glob.glob('/verif/seeded/%s-*/meta.json' % pid))
+if metas and os.environ.get("SEED_ROUND", "1") != "1":
+    lines = []
+    for m in metas:
+        d = json.load(open(m))
+        lines.append("  - (%s) %s" % (", ".join(d.get("files_changed", [])) if isinstance(d.get("files_changed"), list) else d.get("files_changed"), d["summary"]))
+    prev = "\nA previous round already produced the changes listed below for this property. Come up with DIFFERENT ones: a different mechanism, a different code site (prefer another module version / discipline variant / function than those already used, if the property covers several) or a different triggering condition. Do not resubmit variations of these:\n" + "\n".join(lines) + "\n"
 print(f"""You are helping to evaluate a test/verification setup for the Go library akramarenkov/cqos (channel "disciplines": priority-weighted distribution of items to handlers, batching join/unite with timeouts, a rate limiter). It has two Go modules: the root module (v1: packages priority, join) and ./v2 (packages priority, priority/simple, priority/divider, priority/utils, join, join/unite, limit).
 
 You have your own scratch git worktree of the repository at {wt} . Work ONLY inside that directory (do not touch /repo, /verif or any other worktree, and do not read anything under /verif).
@@ -18,6 +28,7 @@ Property that the library is supposed to satisfy:
   Statement: {p['statement']}
   Quantified over: {p['quantifier']['text']}
 
+{prev}
 Task: make {n} DIFFERENT small change(s) to the library's non-test source code (each one independent, each starting from the pristine worktree) that BREAKS this property, while
   (a) the code still compiles,
   (b) the repository's existing test suite still passes, unedited (run it: see the commands below; it takes 1-2 minutes per module, some tests are timing based so re-run once if a timing test flakes and make sure your change is not the cause),
